@@ -25,7 +25,7 @@ bind_cfg() {
     cat $BUILD/notes.txt
 }
 par bind_cfg
-par clang++ -std=c++17 -c $CF $H/gs_bind_legacy.cpp -o $BUILD/bind_legacy.o
+par clang++ -std=c++17 -c $CF -DGS_LEGACY_REINIT_SETBUF_ONLY $H/gs_bind_legacy.cpp -o $BUILD/bind_legacy.o
 par clang++ -std=c++17 -c $CF $REPO/igris/protocols/gstuff.cpp -o $BUILD/gstuff.o
 par clang -c $CF $REPO/igris/protocols/gstuff_v1/autorecv.c -o $BUILD/autorecv_v1.o
 par clang -c $CF $REPO/igris/protocols/gstuff_v1/gstuff.c -o $BUILD/gstuff_v1.o
